@@ -26,6 +26,8 @@ pub fn nq<T: Term>(term: T, buffer: &mut String) {
                     '\x0c' => buffer.push_str("\\f"),
                     '\x7f' => buffer.push_str("\\u007F"),
                     c if c <= '\x1f' => buffer.push_str(&format!("\\u{:04X}", c as u8)),
+                    // non-characters (not matching the XML 1.1 Char production) must also be escaped
+                    '\u{FFFE}' | '\u{FFFF}' => buffer.push_str(&format!("\\u{:04X}", c as u32)),
                     _ => buffer.push(c),
                 }
             }
